@@ -14,6 +14,7 @@ import (
 	"os"
 	"runtime"
 	"runtime/debug"
+	"strings"
 	"sync"
 
 	"verifharness/internal/hx"
@@ -119,6 +120,7 @@ func randomLabel(r *rng.R, proto string) Label {
 type plan struct {
 	mode string
 	make func(r *rng.R) Script
+	slow bool // lasts a keep-alive period or more: started at once, beside the worker pool
 }
 
 func fixed(sc Script) plan { return plan{mode: "det", make: func(*rng.R) Script { return sc }} }
@@ -292,6 +294,35 @@ func buildPlans(thorough bool) []plan {
 			}})
 		}
 	}
+	// 5. keep-alive periods: the conversation waits 15 s (+ margin) per tick label, so these few run
+	// beside the worker pool from the start and are handed out last
+	for _, p := range protos {
+		st := startType(p)
+		init := msg("init", 0, "none", "")
+		q := msg(st, 1, "doc", "query")
+		tick := Label{Kind: lTick}
+		type se struct {
+			ls  []Label
+			end string
+		}
+		scripts := []se{
+			{[]Label{tick, init, q}, "client-close"},                                           // a period passes before init (the keep-alive defect)
+			{[]Label{init, tick, q}, "drop"},                                                   // periodic keep-alive after the ack
+			{[]Label{init, msg(st, 1, "doc", "sub"), tick, {Kind: lEmit, Src: 0}}, "app-close"}, // with a live subscription
+		}
+		if thorough {
+			scripts = append(scripts,
+				se{[]Label{tick, init, tick, q}, "client-close"},
+				se{[]Label{tick, tick, init, q}, "drop"},
+				se{[]Label{msg("ping", 0, "none", ""), tick, msg("init", 0, "reject", "")}, "client-close"},
+				se{[]Label{init, tick, tick, msg(st, 2, "doc", "sub"), tick}, "app-close"},
+			)
+		}
+		for _, s := range scripts {
+			sc := Script{Proto: p, Labels: s.ls, End: s.end, Barrier: s.end != "app-close"}
+			plans = append(plans, plan{mode: "det", slow: true, make: func(*rng.R) Script { return sc }})
+		}
+	}
 	return plans
 }
 
@@ -328,6 +359,21 @@ func main() {
 		if v := os.Getenv("C08_WORKERS"); v != "" {
 			fmt.Sscan(v, &workers)
 		}
+		// Scheduler variation: the number of OS threads running Go code is rotated every 2048 cases
+		// (thorough tier, which is also built with -race; or the list in C08_GOMAXPROCS), so that the
+		// races between read loop, write loop, subscription goroutines and closers are exercised
+		// with one, few and many processors.  What a case contains does not depend on it.
+		var procs []int
+		if v := os.Getenv("C08_GOMAXPROCS"); v != "" {
+			for _, w := range strings.Split(v, ",") {
+				var n int
+				if _, err := fmt.Sscan(w, &n); err == nil && n > 0 {
+					procs = append(procs, n)
+				}
+			}
+		} else if h.Thorough() {
+			procs = []int{runtime.GOMAXPROCS(0), 2, 1, 4}
+		}
 		// Conversations run in parallel; their case lines are handed to hx in index order as they
 		// become available (a window of at most a few hundred results is held in memory).
 		var mu sync.Mutex
@@ -337,7 +383,7 @@ func main() {
 		jobs := make(chan int)
 		go func() {
 			for i := range plans {
-				if h.Only >= 0 && i != h.Only {
+				if (h.Only >= 0 && i != h.Only) || plans[i].slow {
 					continue
 				}
 				mu.Lock()
@@ -345,32 +391,43 @@ func main() {
 					cond.Wait()
 				}
 				mu.Unlock()
+				if len(procs) > 0 && i%2048 == 0 {
+					runtime.GOMAXPROCS(procs[(i/2048)%len(procs)])
+				}
 				jobs <- i
 			}
 			close(jobs)
 		}()
+		runOne := func(i int) {
+			o := &outcome{}
+			func() {
+				defer func() {
+					if e := recover(); e != nil {
+						o.panic = e
+						o.stack = string(debug.Stack())
+					}
+				}()
+				// the same stream hx hands to the Case closure of index i (checked below)
+				r := root.Fork(uint64(i))
+				o.first = root.Fork(uint64(i)).Uint64()
+				sc := plans[i].make(r)
+				res := runConversation(fmt.Sprint(i), sc)
+				o.line = caseSexp(plans[i].mode, sc, res).String()
+			}()
+			mu.Lock()
+			results[i] = o
+			cond.Broadcast()
+			mu.Unlock()
+		}
+		for i := range plans {
+			if plans[i].slow && (h.Only < 0 || i == h.Only) {
+				go runOne(i)
+			}
+		}
 		for k := 0; k < workers; k++ {
 			go func() {
 				for i := range jobs {
-					o := &outcome{}
-					func() {
-						defer func() {
-							if e := recover(); e != nil {
-								o.panic = e
-								o.stack = string(debug.Stack())
-							}
-						}()
-						// the same stream hx hands to the Case closure of index i (checked below)
-						r := root.Fork(uint64(i))
-						o.first = root.Fork(uint64(i)).Uint64()
-						sc := plans[i].make(r)
-						res := runConversation(fmt.Sprint(i), sc)
-						o.line = caseSexp(plans[i].mode, sc, res).String()
-					}()
-					mu.Lock()
-					results[i] = o
-					cond.Broadcast()
-					mu.Unlock()
+					runOne(i)
 				}
 			}()
 		}
